@@ -257,7 +257,7 @@ def reuse_workload(ctx):
     pool += r.sample(corp, min(len(corp), 15))
     bad = ['MAP NAME "unterminated', "MAP LAYER END", "LAYER TYPE END END", "CLASS EXPRESSION ( END", "MAP\n# only comment\n", "STYLE COLOR 1 2 END",
            "MAP OUTPUTFORMAT IMAGEMODE FEATURE END END", "INCLUDE"]
-    nseq = ctx.n(16, 400)
+    nseq = ctx.n(24, 480)
     for sidx in range(nseq):
         comments = r.random() < 0.5
         position = r.random() < 0.5
